@@ -252,11 +252,12 @@ Definition gen_guard_ok : bool :=
 (* memory orders the happens-before theorem (C11_hb) needs: the ack is a release+acquire RMW (in
    offline() at least an acquire: the agent may be the last acker; its release is the mutex), every
    store of the counter is a release, the loads of the counter that decide "the grace period is
-   over" (run(), the loop of quiescent_barrier()) and the one that starts an ack are acquires *)
+   over" (run(), the loop of quiescent_barrier()) are acquires.  (The acquire on quiescent_state()'s own
+   load of the counter is not needed: successive periods are ordered by the mutex.) *)
 Definition orders_sufficient (ord : site -> mo) : bool :=
   is_acq (ord S_q_fsub) && is_rel (ord S_q_fsub) && is_acq (ord S_off_fsub) &&
   is_rel (ord S_on_ctr_st) && is_rel (ord S_off_ctr_st) && is_rel (ord S_qd_ctr_st) && is_rel (ord S_q_ctr_st) &&
-  is_acq (ord S_run_ctr_ld) && is_acq (ord S_qb_loop_ld) && is_acq (ord S_q_ctr_ld).
+  is_acq (ord S_run_ctr_ld) && is_acq (ord S_qb_loop_ld).
 Definition gen_orders_sufficient : bool := orders_sufficient gen_ord.
 
 (* ------------------------------------------------------------------------------------------ *)
